@@ -29,6 +29,12 @@ XS = [0.0, 1.0, 1.5, 4.0]
 YS = [-1.0, 0.0, 0.5, 1.0, 2.0]
 TARGETS = [-2.0 + 0.5 * i for i in range(11)]
 NAMED = ["fnr", "fpr", "tpr", "tnr", "topr", "tonr"]
+# (dtype, images of XS, images of YS, targets)
+INT_VARIANTS = [
+    (np.uint8, [0, 100, 120, 250], [0, 50, 100, 200, 250], [-10, 0, 25, 50, 75, 100, 150, 225, 250, 300]),
+    (np.int8, [-120, -10, 0, 120], [-120, -50, 0, 60, 120], [-130, -120, -85, -50, 0, 30, 60, 90, 120, 127]),
+    (np.int64, [-120, -10, 0, 120], [-120, -50, 0, 60, 120], [-130, -120, -85, -50, 0, 30, 60, 90, 120, 127]),
+]
 
 
 def bounds(tier):
@@ -154,6 +160,19 @@ def run(item, ctx, tier, seed):
                         r_ += 1000.0
                 if not (np.array_equal(xa_, np.array(x)) and np.array_equal(ya_, np.array(y))):
                     ctx.fail("results-do-not-alias-inputs", case, observed=[xa_, ya_], expected=[x, y])
+            # the same curve shape over integer arrays with values near the ends of small dtypes (differences of
+            # neighbouring samples do not fit the dtype)
+            for dt_, xm, ym, tg in INT_VARIANTS:
+                xi, yi = [xm[XS.index(v)] for v in x], [ym[YS.index(v)] for v in y]
+                c3 = {"x": xi, "y": yi, "dtype": np.dtype(dt_).name}
+                for targets_ in (np.array(tg, dtype=float), np.array(tg, dtype=np.int64)):
+                    ok, res3 = guarded(ctx, "int-call", c3, invert_pl_function, np.array(xi, dtype=dt_), np.array(yi, dtype=dt_), targets_)
+                    if ok and isinstance(res3, list) and len(res3) == len(tg):
+                        for t, sol in zip(tg, res3):
+                            ctx.tick()
+                            judge(ctx, dict(c3, t=t, target_dtype=targets_.dtype.name), [float(v) for v in xi], [float(v) for v in yi], float(t), sol)
+                    elif ok:
+                        ctx.fail("one-entry-per-target", c3, observed=type(res3).__name__, expected=len(tg))
             for t in TARGETS[::2]:
                 ok, sol = guarded(ctx, "scalar-call", dict(case, t=t), invert_pl_function, np.array(x), np.array(y), t)
                 ctx.tick()
